@@ -382,6 +382,45 @@ fn gen_program(rng: &mut Rng, feats: &Features, allow_diverger: bool) -> (Vec<Cl
         });
     }
 
+    // a compound term built in one rule, with parts bound after it was built, handed to the
+    // caller through a local variable: the answer reaches the query variable through a chain
+    if feats.rich {
+        if let Some(table) = ctx.preds.iter().find(|p| p.arity >= 1 && p.callable).cloned() {
+            let mut args = vec![Term::var("$N")];
+            if table.arity >= 2 { args.push(Term::var("$A")); }
+            for _ in 2..table.arity { args.push(Term::Anon); }
+            ctx.clauses.push(Clause {
+                functor: "mk".into(),
+                args: vec![Term::var("$P")],
+                body: Some(GoalSpec::And(vec![
+                    GoalSpec::Unify(Term::var("$P"), Term::Cplx("pair".into(), vec![Term::var("$N"), if table.arity >= 2 { Term::var("$A") } else { simple_constant(rng) }])),
+                    GoalSpec::Call(table.name.clone(), args),
+                ])),
+            });
+            ctx.clauses.push(Clause {
+                functor: "via".into(),
+                args: vec![Term::var("$Out")],
+                body: Some(GoalSpec::And(vec![GoalSpec::Call("mk".into(), vec![Term::var("$L")]), GoalSpec::Unify(Term::var("$Out"), Term::var("$L"))])),
+            });
+            ctx.preds.push(Pred { name: "via".into(), arity: 1, class: QueryClass::Finite, callable: false });
+        }
+        if feats.lists {
+            // the recursive list builder: one cell per level, parts bound on the way back
+            ctx.clauses.push(Clause { functor: "copy".into(), args: vec![Term::List(vec![], None), Term::List(vec![], None)], body: None });
+            ctx.clauses.push(Clause {
+                functor: "copy".into(),
+                args: vec![Term::List(vec![Term::var("$H")], Some("$T".into())), Term::List(vec![Term::var("$H")], Some("$R".into()))],
+                body: Some(GoalSpec::Call("copy".into(), vec![Term::var("$T"), Term::var("$R")])),
+            });
+            ctx.clauses.push(Clause {
+                functor: "dup".into(),
+                args: vec![Term::var("$In"), Term::var("$Out")],
+                body: Some(GoalSpec::And(vec![GoalSpec::Call("copy".into(), vec![Term::var("$In"), Term::var("$L")]), GoalSpec::Unify(Term::var("$Out"), Term::var("$L"))])),
+            });
+            ctx.preds.push(Pred { name: "dup".into(), arity: 2, class: QueryClass::Finite, callable: false });
+        }
+    }
+
     // --- rule layers ---
     for layer in 1..=feats.layers {
         let np = rng.range(1, 2) as usize;
@@ -514,7 +553,10 @@ fn gen_program(rng: &mut Rng, feats: &Features, allow_diverger: bool) -> (Vec<Cl
             rng.pick(&general).clone()
         };
         let mut vars = 0;
-        let args: Vec<Term> = if p.name == "mem" {
+        let args: Vec<Term> = if p.name == "dup" {
+            let n = rng.range(0, 3) as usize;
+            vec![Term::List((0..n).map(|_| simple_constant(rng)).collect(), None), Term::var("$P0")]
+        } else if p.name == "mem" {
             let n = rng.range(0, 4) as usize;
             vec![Term::var("$P0"), Term::List((0..n).map(|_| constant(rng)).collect(), None)]
         } else {
@@ -736,6 +778,25 @@ pub fn gen_scenario(family: &str, rng: &mut Rng) -> Scenario {
             extra_clauses.push(Clause { functor: spec.functor.clone(), args, body });
             // before the New of some instance of that query
             history.insert(at, Op::Assert { c: extra_clauses.len() - 1 });
+        }
+    }
+    // the knowledge base is replaced in place by a different program with the same shape (the
+    // same variable is loaded again): one scenario in six for C22, one in twelve otherwise
+    let reload = if family == "C22" { rng.chance(1, 6) } else { rng.chance(1, 12) };
+    if reload {
+        let news: Vec<usize> = history.iter().enumerate().filter_map(|(i, op)| if let Op::New { .. } = op { Some(i) } else { None }).collect();
+        // not before the first query: something must have run against the program replaced
+        if news.len() >= 2 && history.len() < 18 {
+            let at = news[1 + rng.usize_below(news.len() - 1)];
+            history.insert(at, Op::Reload);
+            if rng.chance(1, 3) && history.len() < 18 {
+                // and back again later
+                let later: Vec<usize> = history.iter().enumerate().filter_map(|(i, op)| if i > at + 1 && matches!(op, Op::New { .. }) { Some(i) } else { None }).collect();
+                if !later.is_empty() {
+                    let at2 = *rng.pick(&later);
+                    history.insert(at2, Op::Reload);
+                }
+            }
         }
     }
     // a moment passes between make_query and make_base_node (C23 and C22 families)
